@@ -137,12 +137,12 @@ Theorem C17_question_sound : forall p index buffer q off,
 Proof. exact question_sound. Qed.
 Print Assumptions C17_question_sound.
 
-(* every question with a name of 1..127 labels (at most 256 octets, at most 254 pointers) in a
-   message with QDCOUNT = 1 is decoded, with the reference's name, type, class and end offset *)
+(* every question (name of 0..127 labels: the root name included; at most 256 octets, at most 254
+   pointers) in a message with QDCOUNT = 1 is decoded, with the reference's name, type, class, end offset *)
 Theorem C17_question_complete : forall p index buffer d ls n t c,
   wf p -> bytes_ok (arr p) -> (12 <= len p)%nat ->
   u16_at (view p) 4 = Some 1 ->
-  name_at_d (view p) d index ls n -> (d <= 254)%nat -> (wire_len ls <= 256)%nat -> ls <> [] ->
+  name_at_d (view p) d index ls n -> (d <= 254)%nat -> (wire_len ls <= 256)%nat ->
   u16_at (view p) n = Some t -> u16_at (view p) (n + 2) = Some c ->
   decodeQuestion p (Z.of_nat index) buffer = Ok (mkQ (dotted ls) t c, (n + 4)%nat).
 Proof. exact question_complete. Qed.
@@ -179,7 +179,7 @@ Print Assumptions C17_ptr_owner.
    entry when something was added, nothing otherwise) and leaves the reference table: the reference
    learning merged insert-if-absent into the previous table. *)
 Theorem C17_processdns_table : forall t p lim rm,
-  wf p -> bytes_ok (arr p) -> (lim <= 256)%nat -> (18 <= len p)%nat ->
+  wf p -> bytes_ok (arr p) -> (lim <= 256)%nat ->
   ref_message lim (view p) = Some rm -> msg_within lim (view p) ->
   exists re, fst (processDNS t p) = Ok re /\
              option_map named_of re = fst (ref_process (ctable_of t) rm) /\
@@ -189,7 +189,7 @@ Print Assumptions C17_processdns_table.
 
 Example C17_processdns_table_nonvacuous :
   let p := of_bytes example_response in
-  wf p /\ bytes_okb (arr p) = true /\ (18 <= len p)%nat /\
+  wf p /\ bytes_okb (arr p) = true /\
   (exists rm, ref_message NAME_LIMIT (view p) = Some rm /\ List.length (rm_learned rm) = 3%nat) /\
   msg_within NAME_LIMIT (view p).
 Proof. exact processdns_table_nonvacuous. Qed.
